@@ -111,6 +111,13 @@ def run_plan_property(prop, tier, seed, checks, nontrivial, describe, known_filt
                             {"kind": "correspondence-broken", "correspondence": "KV.planDumpE vs harness/extract of *_band.go", "case": l, "model": a, "impl": b})
     finally:
         p_e2e.close_streams()
+    # multi-package end-to-end stream (types spread over same-named packages, imports synthesised by the generator)
+    if prop in ("C02", "C09", "C10"):
+        from . import xpkg
+        try:
+            xpkg.judge(R, xpkg.xpkg_stream(tier, seed), {prop})
+        finally:
+            xpkg.close_streams()
     if diffs and not R.violations:
         i = diffs[0]
         R.violation("model and implementation plans differ on %d declarations but every implementation plan satisfies the property's structural conditions" % len(diffs),
@@ -155,7 +162,7 @@ def check_c02(tier, seed):
     def nt(P):
         "at least three provider calls"
         return sum(len(th) for th in P["threads"]) >= 3
-    R = run_plan_property("C02", tier, seed, lambda P, d: PC.check_values(P, d[0], d[1]), nt,
+    R = run_plan_property("C02", tier, seed, lambda P, d: PC.check_values(P, d[0], d[1]) + PC.check_dataflow(P), nt,
                           "the planned wiring differs from sequential evaluation of the declaration", needs_decl=True)
     R.assumptions = ["values are Herbrand terms: providers are uninterpreted functions, type identity is the type key",
                      "Set regrouping / declaration order / go/packages decoding are covered by the end-to-end stream, not by this in-process stream"]
